@@ -21,6 +21,8 @@ class Loop:
     modifies: list | None = None  # None: computed syntactically from the loop body
     decreases: str | None = None
     unroll: bool = False  # iterate a concretely known iterable completely (complete, not bounded)
+    elem_ty: str | None = None  # element sort for cutting a loop over a concretely known list (e.g. "Str")
+    ghost_modifies: list | None = None  # ghost variables the body may change (None: all of them)
 
 
 @dataclass
